@@ -43,7 +43,7 @@ def case_strategy(draw, tier="quick"):
     if expr["agg"] in ("var", "std") and expr["base"] == "xy" and not group:
         expr["base"] = "x"
     if expr["agg"] in ("var", "std"):
-        expr["ddof"] = draw(st.sampled_from([1, 1, 0]))
+        expr["ddof"] = draw(st.sampled_from([1, 1, 0, 2, 3]))
     if expr["agg"] == "apply_median":
         expr["base"] = draw(st.sampled_from(["x", "y"]))
     # every batch may carry its own RangeIndex 0..k-1 (labels repeat between batches)
